@@ -528,6 +528,16 @@ func c18Driver(w *World, r *Result) {
 				lst := c.Call.Args[0]
 				ph, ok := lst.(*ssa.Phi)
 				if !ok {
+					// the list handed back by a function that converts one stage and calls itself for
+					// the next: this stage first, then what the call for Next() returned
+					if verdict, why := recursiveStageList(lst); verdict != 0 {
+						if verdict > 0 {
+							r.Ok(rule, "pipe:driver:order", pos, why)
+						} else {
+							r.Bad(rule, "pipe:driver:order", pos, why)
+						}
+						continue
+					}
 					r.Bad(rule, "pipe:driver:order", pos, "the stage list handed to AppCall is not built by a loop")
 					continue
 				}
@@ -558,6 +568,82 @@ func c18Driver(w *World, r *Result) {
 			}
 		}
 	}
+}
+
+// recursiveStageList: lst is the result of a function H of the driver whose success returns
+// are the empty list, or append(L, R...) with one of L, R the written-out list of the stage
+// H converts and the other the result of H called with Next() of its parameter.
+// +1: this stage comes first; -1: the rest comes first (reversed pipeline); 0: not this form.
+func recursiveStageList(lst ssa.Value) (int, string) {
+	var call *ssa.Call
+	switch x := lst.(type) {
+	case *ssa.Extract:
+		call, _ = x.Tuple.(*ssa.Call)
+	case *ssa.Call:
+		call = x
+	}
+	if call == nil {
+		return 0, ""
+	}
+	h := call.Call.StaticCallee()
+	if h == nil || len(h.Blocks) == 0 {
+		return 0, ""
+	}
+	isSelfNext := func(v ssa.Value) bool {
+		var c *ssa.Call
+		switch x := v.(type) {
+		case *ssa.Extract:
+			c, _ = x.Tuple.(*ssa.Call)
+		case *ssa.Call:
+			c = x
+		}
+		if c == nil || c.Call.StaticCallee() != h {
+			return false
+		}
+		for _, a := range c.Call.Args {
+			if ac, ok := a.(*ssa.Call); ok {
+				if callee := ac.Call.StaticCallee(); callee != nil && callee.Name() == "Next" {
+					return true
+				}
+			}
+		}
+		return false
+	}
+	isLiteral := func(v ssa.Value) bool {
+		sl, ok := v.(*ssa.Slice)
+		if !ok {
+			return false
+		}
+		_, isAlloc := sl.X.(*ssa.Alloc)
+		return isAlloc
+	}
+	forms := 0
+	for _, b := range h.Blocks {
+		ret, ok := b.Instrs[len(b.Instrs)-1].(*ssa.Return)
+		if !ok || len(ret.Results) == 0 || isErrorReturn(ret) {
+			continue
+		}
+		ap, ok := ret.Results[0].(*ssa.Call)
+		if !ok {
+			continue // the empty list at the end of the chain
+		}
+		bi, ok := ap.Call.Value.(*ssa.Builtin)
+		if !ok || bi.Name() != "append" || len(ap.Call.Args) != 2 {
+			return 0, ""
+		}
+		switch {
+		case isLiteral(ap.Call.Args[0]) && isSelfNext(ap.Call.Args[1]):
+			forms++
+		case isSelfNext(ap.Call.Args[0]) && isLiteral(ap.Call.Args[1]):
+			return -1, "the stage converted by " + FuncName(h) + " is put behind the stages that follow it: the pipeline is emitted in reverse order"
+		default:
+			return 0, ""
+		}
+	}
+	if forms == 0 {
+		return 0, ""
+	}
+	return 1, "each stage is put in front of the stages that the call for Next() returned: source order"
 }
 
 // ScratchReuseRule: the argument list of a builtin call is a fresh list. A list of tree nodes
